@@ -12,7 +12,7 @@ import (
 
 func init() {
 	register(&Property{
-		ID: "C01",
+		ID:          "C01",
 		Explanation: "Decided for all paths: the only transition to Leader is in runCandidate's arm that receives real (not pre-) vote results, guarded by grantedVotes >= quorumSize(), where the counter is incremented by one only under vote.Granted after the newer-term test; quorumSize is a strict voter majority for every voter count 0..64; electSelf bumps the term by exactly one, persists it and the self vote before the self vote is delivered, asks only voters, each peer goroutine reports exactly once into a channel created per election; every RPC handler ignores stale terms before any effect and steps down/updates the term on a higher one, and so do the candidate's result arms and the replication routines (via handleStaleTerm → stepDown → leaderLoop); AppendEntries/InstallSnapshot are sent only by the replication routines, which are started only by the leader's startStopReplication with Term fixed to the term at that moment; the in-memory term and role each have a single writer chain; plus all C06 vote-granting obligations (one durable vote per term).",
 		NotDecided:  "that two running servers never both lead a term – the protocol-level induction over all histories, store behaviour across crashes and message interleavings is not performed.",
 		RuleText:    "C01.R1 leader transition guard and counter discipline; R2 S-QUORUM; R3 electSelf order/voter-only/single report; R4 S-STALE and S-HIGHER; R5 who-may-send leader RPCs and origin of their Term; R6 single writers of term and role; R7 C06.R1-R3 re-used.",
